@@ -13,7 +13,10 @@ from repid.data._parameters import DelayProperties, Parameters, ResultProperties
 
 from .vloop import CLOCK, VLoop, check_virtual_stamp
 
-logging.getLogger("repid").disabled = True
+# as in a process that never configured logging: warnings and errors are formatted (so that a
+# log call which raises is noticed), debug/info are not; nothing is printed (NullHandler)
+logging.getLogger("repid").setLevel(logging.WARNING)
+logging.getLogger("repid").propagate = False
 logging.getLogger("asyncio").disabled = True
 
 KINDS = ("mem", "redis", "amqp")
